@@ -69,6 +69,44 @@ def _def_asum(ap):
                   z3.Implies(hi > lo, ap == asum(a, off, lo, hi - 1) + z3.If(a[hi - 1] < a[hi], hi - 1 - off, 0)))
 
 
+A2s = z3.ArraySort(I, A)
+# walkv(acc, sarr, sstart, v0, p) = vertex reached after the first p characters of the string from v0, or -1 once a step is not a live arc
+walkv = z3.Function("walkv", A2s, A, I, I, I, I)
+
+
+def _def_walkv(ap):
+    acc, sarr, s0, v0, p = ap.children()
+    prev = walkv(acc, sarr, s0, v0, p - 1)
+    c = code_of(sarr[s0 + p - 1])
+    return z3.And(z3.Implies(p <= 0, ap == v0),
+                  z3.Implies(p > 0, ap == z3.If(z3.Or(prev < 0, c < 0), iv(-1), z3.If(acc[prev][c] >= 0, acc[prev][c], iv(-1)))))
+
+
+# weights / little-endian mixed-radix value / right Horner value of position-indexed (radix, digit) arrays
+wtf = z3.Function("wtf", A, I, I, I)           # wtf(dg, lo, hi) = product of dg[lo..hi)
+lvf = z3.Function("lvf", A, A, I, I, I)        # lvf(dg, dd, lo, hi) = sum over q in [lo,hi) of dd[q] * wtf(dg, lo, q)
+hvf = z3.Function("hvf", A, A, I, I, I)        # hvf(dg, dd, lo, hi) = dd[lo] + dg[lo] * hvf(dg, dd, lo + 1, hi)
+
+
+def _def_wtf(ap):
+    dg, lo, hi = ap.children()
+    return z3.And(z3.Implies(hi <= lo, ap == 1), z3.Implies(hi > lo, ap == wtf(dg, lo, hi - 1) * dg[hi - 1]))
+
+
+def _def_lvf(ap):
+    dg, dd, lo, hi = ap.children()
+    return z3.And(z3.Implies(hi <= lo, ap == 0), z3.Implies(hi > lo, ap == lvf(dg, dd, lo, hi - 1) + dd[hi - 1] * wtf(dg, lo, hi - 1)))
+
+
+def _def_hvf(ap):
+    dg, dd, lo, hi = ap.children()
+    return z3.And(z3.Implies(hi <= lo, ap == 0), z3.Implies(hi > lo, ap == dd[lo] + dg[lo] * hvf(dg, dd, lo + 1, hi)))
+
+
+RECURSIVE[walkv.name()] = (walkv, _def_walkv)
+RECURSIVE[wtf.name()] = (wtf, _def_wtf)
+RECURSIVE[lvf.name()] = (lvf, _def_lvf)
+RECURSIVE[hvf.name()] = (hvf, _def_hvf)
 RECURSIVE[asum.name()] = (asum, _def_asum)
 RECURSIVE[pv.name()] = (pv, _def_pv)
 RECURSIVE[ipow.name()] = (ipow, _def_ipow)
